@@ -528,6 +528,17 @@ func lists(k int, emit func(*cfgSpec)) {
 
 // defaultsPart: how the default is chosen with one or two clients configured.
 func defaultsPart(emit func(*cfgSpec)) {
+	// client maps of different sizes (a client that speaks only one of the protocols): each default follows
+	// the map of its own protocol
+	for _, sz := range [][2]int{{2, 1}, {1, 2}} {
+		for _, t := range []string{"", "c0", "reject"} {
+			for _, u := range []string{"", "c0", "reject"} {
+				for _, routes := range [][]routeSpec{nil, {{Name: "r1", Client: "reject", ToPorts: pSingle}}} {
+					emit(&cfgSpec{Routes: routes, DefaultTCP: t, DefaultUDP: u, Clients: 2, TCPClients: sz[0], UDPClients: sz[1]})
+				}
+			}
+		}
+	}
 	for _, clients := range []int{1, 2} {
 		names := []string{"", "c0", "reject"}
 		if clients == 2 {
